@@ -211,7 +211,7 @@ def bfs (expand, depth, rep, workers=1, seed=0, max_states=None, chunk=64):
         dg = digest(r["key"])
         if dg in seen: continue
         seen.add(dg)
-        if len(seen) % 5000 == 1: rep.sample(dict(history=list(h), observed=r.get("out")))
+        if len(seen) <= 4 or len(seen) % 5000 == 1: rep.sample(dict(history=list(h), observed=r.get("out")))
         nxt.append((h, r["ops"]))
         if max_states is not None and len(seen) >= max_states:
           capped = True; break
